@@ -1,4 +1,434 @@
-//! backoff: not built yet.
-pub fn run(args: &vh_common::Args) {
-    vh_common::unknown(args)
+//! Backoff (C28): `p2panda_net::discovery::Backoff` (private module, hook H3) against spec/Backoff.
+//!
+//! The two random draws of the type come from a concrete `ChaCha20Rng`, so a behaviour of the
+//! specification (which fixes the draws) cannot be forced onto the code. Instead:
+//!
+//! replay: TLC exports EVERY behaviour of a small configuration (all draws = all seeds of the
+//!   model). Behaviours are grouped by schedule (the sequence of calls); for every schedule the real
+//!   type is run with many real seeds and after every call its observable (`value`, `reset_after`)
+//!   must be one the specification allows at that point (a child in the trie of exported
+//!   behaviours). A run that leaves the trie did something no seed of the model can do. The
+//!   property itself (initial <= value <= max; reset once the interval has elapsed) is also
+//!   asserted directly on the real values.
+//!   Time: the code reads `Instant::now()` itself. The specification's clock is mapped lazily: when
+//!   the exported step says "interval elapsed" the harness really sleeps until
+//!   `since_last_reset > reset_after` (strictly longer, cannot flake); when it says "not elapsed"
+//!   the harness does not wait at all, and a run in which the machine stalled long enough for the
+//!   interval to elapse anyway is discarded as inconclusive (measured with the same monotonic
+//!   clock), never reported.
+//! record: seeded random runs (default configuration and random millisecond configurations,
+//!   increments, resets, real waits past the interval) with one event per call; every `Increment`
+//!   is preceded by a `Tick{lo,hi}` bracketing the time since the last reset as the call saw it.
+use std::collections::BTreeMap;
+use std::sync::Mutex;
+use std::sync::atomic::{AtomicUsize, Ordering};
+use std::time::{Duration, Instant};
+
+use p2panda_net::discovery::{Backoff, BackoffConfig};
+use rand::SeedableRng;
+use rand_chacha::ChaCha20Rng;
+use vh_common::{Args, Outcome, Rng, TraceWriter, Value, catch, json, read_ndjson, unknown};
+
+pub fn run(args: &Args) {
+    match args.mode.as_str() {
+        "replay" => replay(args),
+        "record" => record(args),
+        _ => unknown(args),
+    }
+}
+
+fn ms(x: u64) -> Duration {
+    Duration::from_millis(x)
+}
+
+#[derive(Clone, Debug, PartialEq, Eq, PartialOrd, Ord)]
+struct Cfg {
+    initial: u64,
+    min_inc: u64,
+    max_inc: u64,
+    max_value: u64,
+    min_reset: u64,
+    max_reset: u64,
+}
+
+impl Cfg {
+    fn from_json(v: &Value) -> Cfg {
+        let g = |k: &str| v[k].as_u64().unwrap_or_else(|| panic!("cfg.{k}"));
+        Cfg {
+            initial: g("initial"),
+            min_inc: g("minInc"),
+            max_inc: g("maxInc"),
+            max_value: g("maxValue"),
+            min_reset: g("minReset"),
+            max_reset: g("maxReset"),
+        }
+    }
+
+    fn json(&self) -> Value {
+        json!({"initial": self.initial, "minInc": self.min_inc, "maxInc": self.max_inc,
+               "maxValue": self.max_value, "minReset": self.min_reset, "maxReset": self.max_reset})
+    }
+
+    /// The real configuration: value/increments in ms as in the spec, reset range scaled by `unit` ms.
+    fn real(&self, unit: u64) -> BackoffConfig {
+        BackoffConfig::verif_new(
+            ms(self.initial),
+            ms(self.min_inc),
+            ms(self.max_inc),
+            ms(self.max_value),
+            ms(self.min_reset * unit),
+            ms(self.max_reset * unit),
+        )
+    }
+}
+
+fn seeded(seed: u64) -> ChaCha20Rng {
+    ChaCha20Rng::seed_from_u64(seed)
+}
+
+// ------------------------------------------------------------------------------------------------
+// Replay: trie of exported behaviours per (cfg, schedule)
+
+#[derive(Default)]
+struct Node {
+    /// observation (value, resetAfter) -> subtree
+    children: BTreeMap<(u64, u64), Node>,
+    /// "interval elapsed" flag of the step leading to the children (Increment steps)
+    next_elapsed: Option<bool>,
+}
+
+type Schedule = Vec<(String, u64)>;
+
+struct Group {
+    cfg: Cfg,
+    schedule: Schedule,
+    root: Node,
+    behaviours: usize,
+    sample: Value,
+}
+
+struct RunResult {
+    /// observation path, if the run stayed inside the trie to the end
+    realised: Option<Vec<(u64, u64)>>,
+    inconclusive: bool,
+    elapsed_resets: u64,
+    saturated: bool,
+    violation: Option<(String, String, Value)>,
+}
+
+fn walk(g: &Group, seed: u64, unit: u64) -> RunResult {
+    let mut res = RunResult { realised: None, inconclusive: false, elapsed_resets: 0, saturated: false, violation: None };
+    let case = |path: &Vec<(u64, u64)>| json!({"kind": "backoff-run", "cfg": g.cfg.json(), "seed": seed, "unit": unit,
+        "schedule": g.schedule.iter().map(|(a, dt)| json!({"a": a, "dt": dt})).collect::<Vec<_>>(),
+        "observed": path.iter().map(|(v, r)| json!([v, r])).collect::<Vec<_>>()});
+    let mut b = Backoff::new(g.cfg.real(unit), seeded(seed));
+    let observe = |b: &Backoff| (b.verif_value().as_millis() as u64, b.verif_reset_after().as_millis() as u64 / unit);
+    let mut path = vec![observe(&b)];
+    let mut node = match g.root.children.get(&path[0]) {
+        Some(n) => n,
+        None => {
+            res.violation = Some(("outcome-not-in-spec".into(), format!("Backoff::new gives (value, reset_after/unit) = {:?}, not an initial state of the specification", path[0]), case(&path)));
+            return res;
+        }
+    };
+    for (k, (a, _dt)) in g.schedule.iter().enumerate().skip(1) {
+        let before = *path.last().unwrap();
+        let mut definitely_elapsed = false;
+        match a.as_str() {
+            "Advance" => {} // the specification's clock; real time is arranged at the next Increment
+            "Reset" => b.reset(),
+            "Increment" => {
+                let want_elapsed = node.next_elapsed.expect("elapsed flag");
+                if want_elapsed {
+                    // strictly longer than the interval: the code must see it as elapsed
+                    while b.verif_since_last_reset() <= b.verif_reset_after() {
+                        let left = b.verif_reset_after().saturating_sub(b.verif_since_last_reset());
+                        std::thread::sleep(left + Duration::from_millis(1));
+                    }
+                    definitely_elapsed = true;
+                    b.increment();
+                    res.elapsed_resets += 1;
+                } else {
+                    // Not elapsed according to the specification: the harness does not wait. Bracket
+                    // what the call can have seen with the same monotonic clock; if the machine
+                    // stalled so long that the interval may have elapsed anyway, the run says nothing.
+                    let reset_after = b.verif_reset_after();
+                    let t0 = Instant::now();
+                    let since_before = b.verif_since_last_reset();
+                    b.increment();
+                    let upper = since_before + t0.elapsed();
+                    if upper >= reset_after {
+                        res.inconclusive = true;
+                    }
+                }
+            }
+            other => panic!("unknown action {other}"),
+        }
+        let obs = observe(&b);
+        path.push(obs);
+        // ---- the property, directly on the real values ----
+        if obs.0 > g.cfg.max_value {
+            res.violation = Some(("value-above-max".into(),
+                format!("call #{k} ({a}) left value = {} ms above max_value = {} ms (seed {seed})", obs.0, g.cfg.max_value), case(&path)));
+            return res;
+        }
+        if obs.0 < g.cfg.initial {
+            res.violation = Some(("value-below-initial".into(),
+                format!("call #{k} ({a}) left value = {} ms below initial_value = {} ms (seed {seed})", obs.0, g.cfg.initial), case(&path)));
+            return res;
+        }
+        if definitely_elapsed && obs.0 != g.cfg.initial {
+            res.violation = Some(("no-reset-after-interval".into(),
+                format!("increment #{k} was called more than reset_after after the last reset but value = {} ms, initial = {} ms (seed {seed})", obs.0, g.cfg.initial), case(&path)));
+            return res;
+        }
+        if obs.0 == g.cfg.max_value && before.0 < g.cfg.max_value {
+            res.saturated = true;
+        }
+        if res.inconclusive {
+            return res;
+        }
+        // ---- conformance: is this outcome one the specification allows here? ----
+        match node.children.get(&obs) {
+            Some(n) => node = n,
+            None => {
+                res.violation = Some(("outcome-not-in-spec".into(),
+                    format!("after call #{k} ({a}) the real Backoff shows (value, reset_after/unit) = {obs:?}; from {before:?} the specification allows only {:?} (seed {seed})",
+                        node.children.keys().collect::<Vec<_>>()), case(&path)));
+                return res;
+            }
+        }
+    }
+    res.realised = Some(path);
+    res
+}
+
+fn replay(args: &Args) {
+    let behaviours = read_ndjson(args.input.as_ref().expect("--in"));
+    let seeds = args.extra_usize("seeds", 200) as u64;
+    let unit = args.extra_usize("unit", 10) as u64;
+    let threads = args.extra_usize("threads", 16);
+    let mut out = Outcome::new(
+        args,
+        "every schedule (call sequence) of the TLC-exported behaviours run on the real Backoff with real ChaCha20Rng seeds; \
+         after each call the real (value, reset_after) must be an outcome the specification allows there, and the bounds / reset-after-interval \
+         are asserted on the real values; evaluations = (schedule, seed) runs; distinct = distinct exported observation paths realised by some seed; \
+         non-trivial = the path saturates at the maximum or contains a reset caused by elapsed time",
+    );
+
+    // a single failing run (bin/check --replay): kind = "backoff-run"
+    let mut groups: Vec<Group> = Vec::new();
+    let mut index: BTreeMap<(Cfg, Schedule), usize> = BTreeMap::new();
+    let mut single_runs: Vec<(Cfg, Schedule, u64, u64)> = Vec::new();
+    for b in &behaviours {
+        let cfg = Cfg::from_json(&b["cfg"]);
+        if b["kind"] == "backoff-run" {
+            let schedule: Schedule = b["schedule"].as_array().unwrap().iter().map(|s| (s["a"].as_str().unwrap().to_string(), s["dt"].as_u64().unwrap_or(0))).collect();
+            single_runs.push((cfg, schedule, b["seed"].as_u64().unwrap(), b["unit"].as_u64().unwrap_or(unit)));
+            continue;
+        }
+        let steps = b["steps"].as_array().expect("steps");
+        let schedule: Schedule = steps.iter().map(|s| (s["a"].as_str().unwrap().to_string(), s["dt"].as_u64().unwrap_or(0))).collect();
+        let gi = *index.entry((cfg.clone(), schedule.clone())).or_insert_with(|| {
+            groups.push(Group { cfg: cfg.clone(), schedule: schedule.clone(), root: Node::default(), behaviours: 0, sample: b.clone() });
+            groups.len() - 1
+        });
+        let g = &mut groups[gi];
+        g.behaviours += 1;
+        let mut node = &mut g.root;
+        for s in steps {
+            if s["a"] == "Increment" {
+                let e = s["elapsed"].as_bool().unwrap();
+                assert!(node.next_elapsed.is_none_or(|x| x == e), "harness: elapsed flag not a function of the observation prefix");
+                node.next_elapsed = Some(e);
+            }
+            let obs = (s["value"].as_u64().unwrap(), s["resetAfter"].as_u64().unwrap());
+            node = node.children.entry(obs).or_default();
+        }
+    }
+
+    if !single_runs.is_empty() {
+        // re-run of reported cases: the property-level assertions only (no trie available)
+        for (cfg, schedule, seed, unit) in single_runs {
+            out.eval();
+            let g = Group { cfg, schedule, root: Node::default(), behaviours: 0, sample: Value::Null };
+            // a trie-less walk reports "outcome-not-in-spec" at once; run the calls by hand instead
+            let r = catch(|| {
+                let mut b = Backoff::new(g.cfg.real(unit), seeded(seed));
+                let mut worst = None;
+                for (k, (a, _)) in g.schedule.iter().enumerate().skip(1) {
+                    match a.as_str() {
+                        "Increment" => b.increment(),
+                        "Reset" => b.reset(),
+                        _ => {}
+                    }
+                    let v = b.verif_value().as_millis() as u64;
+                    if v > g.cfg.max_value && worst.is_none() {
+                        worst = Some((k, v));
+                    }
+                }
+                worst
+            });
+            match r {
+                Ok(Some((k, v))) => out.violation("C28", "value-above-max", format!("call #{k} left value = {v} ms above max_value = {} ms (seed {seed})", g.cfg.max_value), json!(null)),
+                Ok(None) => {}
+                Err(p) => out.violation("C28", "backoff-panics", p, json!(null)),
+            }
+        }
+        out.write(args);
+        return;
+    }
+
+    // jobs: every (group, seed)
+    let jobs: Vec<(usize, u64)> = (0..groups.len()).flat_map(|g| (0..seeds).map(move |s| (g, s))).collect();
+    let next = AtomicUsize::new(0);
+    let results: Mutex<Vec<(usize, u64, Result<RunResult, String>)>> = Mutex::new(Vec::new());
+    std::thread::scope(|scope| {
+        for _ in 0..threads {
+            scope.spawn(|| {
+                let mut local = Vec::new();
+                loop {
+                    let i = next.fetch_add(1, Ordering::Relaxed);
+                    if i >= jobs.len() {
+                        break;
+                    }
+                    let (gi, seed) = jobs[i];
+                    let r = catch(|| walk(&groups[gi], seed, unit));
+                    local.push((gi, seed, r));
+                }
+                results.lock().unwrap().extend(local);
+            });
+        }
+    });
+    let mut results = results.into_inner().unwrap();
+    results.sort_by_key(|(g, s, _)| (*g, *s));
+    let exported: usize = groups.iter().map(|g| g.behaviours).sum();
+    out.count_by("behaviours_exported", exported as u64);
+    out.count_by("schedules", groups.len() as u64);
+    let mut realised_runs = 0u64;
+    for (gi, seed, r) in results {
+        out.eval();
+        match r {
+            Err(p) => out.violation("C28", "backoff-panics", format!("seed {seed}: {p}"), groups[gi].sample.clone()),
+            Ok(r) => {
+                if r.inconclusive {
+                    out.count("runs_timing_inconclusive");
+                }
+                out.count_by("resets_after_real_wait", r.elapsed_resets);
+                if let Some((sig, detail, case)) = r.violation {
+                    out.violation("C28", &sig, detail, case);
+                } else if let Some(path) = r.realised {
+                    realised_runs += 1;
+                    if r.saturated || r.elapsed_resets > 0 {
+                        out.mark_distinct(format!("{gi}|{path:?}"));
+                    }
+                    if seed == 0 {
+                        out.sample(json!({"cfg": groups[gi].cfg.json(), "seed": seed, "schedule": groups[gi].schedule.iter().map(|(a, _)| a.clone()).collect::<Vec<_>>(), "observed": path.iter().map(|(v, r)| json!([v, r])).collect::<Vec<_>>()}));
+                    }
+                }
+            }
+        }
+    }
+    out.count_by("runs_realising_an_exported_behaviour", realised_runs);
+    if realised_runs == 0 && out.violations_total == 0 {
+        eprintln!("vacuous: no run realised an exported behaviour");
+        std::process::exit(2);
+    }
+    out.write(args);
+}
+
+// ------------------------------------------------------------------------------------------------
+// Record
+
+fn random_cfg(rng: &mut Rng) -> Cfg {
+    let initial = *rng.pick(&[0u64, 0, 1, 7]);
+    let min_inc = rng.range(0, 4);
+    let max_inc = min_inc + rng.range(1, 9);
+    let max_value = initial + rng.range(0, 40);
+    let min_reset = rng.range(15, 40);
+    let max_reset = min_reset + rng.range(1, 30);
+    Cfg { initial, min_inc, max_inc, max_value, min_reset, max_reset }
+}
+
+fn record(args: &Args) {
+    let mut rng = Rng::new(args.seed);
+    let n = if args.n > 0 { args.n } else { 60 };
+    let mut trace = TraceWriter::create(args.out.as_ref().expect("--out"));
+    let mut out = Outcome::new(
+        args,
+        "seeded runs of the real Backoff: the default configuration (seconds) and random millisecond configurations, real ChaCha20Rng seeds, \
+         random increment / reset calls and real waits past reset_after; one event per call, each Increment preceded by a Tick bracketing \
+         the time since the last reset; non-trivial = the run saturates or resets after a real wait; distinct by run",
+    );
+    let default_cfg = Cfg { initial: 0, min_inc: 1000, max_inc: 5000, max_value: 30000, min_reset: 60000, max_reset: 180000 };
+    let t_start = Instant::now();
+    for run in 0..n {
+        let use_default = run % 3 == 0;
+        let cfg = if use_default { default_cfg.clone() } else { random_cfg(&mut rng) };
+        let seed = rng.next_u64() % 1_000_000;
+        let real = if use_default { BackoffConfig::default() } else { cfg.real(1) };
+        let calls = if use_default { rng.range(20, 120) } else { rng.range(5, 60) };
+        // at most two real waits per run, and none once the recording has taken long
+        let mut waits_left = if use_default || t_start.elapsed() > Duration::from_secs(60) { 0 } else { 2 };
+        let r = catch(|| {
+            let mut events = Vec::new();
+            let mut b = Backoff::new(real, seeded(seed));
+            let obs = |b: &Backoff| (b.verif_value().as_millis() as u64, b.verif_reset_after().as_millis() as u64);
+            let (v, r) = obs(&b);
+            events.push(json!({"ev": "Reset", "run": run, "seed": seed, "cfg": cfg.json(), "value": v, "resetAfter": r}));
+            let mut nontrivial = false;
+            for _ in 0..calls {
+                let what = rng.below(20);
+                if what == 0 {
+                    b.reset();
+                    let (v, r) = obs(&b);
+                    events.push(json!({"ev": "BackoffReset", "value": v, "resetAfter": r}));
+                    continue;
+                }
+                if what == 1 && waits_left > 0 {
+                    waits_left -= 1;
+                    // really wait until the interval has elapsed (strictly longer)
+                    while b.verif_since_last_reset() <= b.verif_reset_after() {
+                        let left = b.verif_reset_after().saturating_sub(b.verif_since_last_reset());
+                        std::thread::sleep(left + Duration::from_millis(1));
+                    }
+                    nontrivial = true;
+                } else if what == 2 && !use_default {
+                    std::thread::sleep(Duration::from_millis(rng.range(1, 4)));
+                }
+                // bracket of "time since last reset" as seen inside the call: [lo, hi] in ms
+                let t0 = Instant::now();
+                let before = b.verif_since_last_reset();
+                b.increment();
+                let took = t0.elapsed();
+                let lo = before.as_millis() as u64;
+                let hi = (before + took).as_millis() as u64 + 1;
+                let (v, r) = obs(&b);
+                if v == cfg.max_value && cfg.max_value > cfg.initial {
+                    nontrivial = true;
+                }
+                events.push(json!({"ev": "Tick", "lo": lo, "hi": hi}));
+                events.push(json!({"ev": "Increment", "value": v, "resetAfter": r}));
+            }
+            (events, nontrivial)
+        });
+        out.eval();
+        match r {
+            Err(p) => out.violation("C28", "backoff-panics", p, json!({"cfg": cfg.json(), "seed": seed})),
+            Ok((events, nontrivial)) => {
+                if nontrivial {
+                    out.mark_distinct(format!("run{run}"));
+                }
+                if run < 2 {
+                    out.sample(json!({"cfg": cfg.json(), "seed": seed, "events": events.len()}));
+                }
+                for e in events {
+                    trace.event(e);
+                }
+            }
+        }
+    }
+    let (events, runs) = trace.finish();
+    out.set_trace(events, runs);
+    out.write(args);
 }
